@@ -498,9 +498,11 @@ def make_uploadable(u, data, work):
     raise ValueError(src)
 
 
-def run_one_upload(g, u, work):
+def run_one_upload(g, u, work, before_upload=None):
     data = plaintext("c05-%s" % u["cid"], u["size"], u.get("variant", ""))
     g.params["k"], g.params["n"], g.params["happy"], g.params["max_segment_size"] = u["k"], u["N"], 1, u["maxseg"]
+    if before_upload is not None:
+        before_upload()          # what the client did before this upload (the cap must not depend on it)
     old_chunk = upload.EncryptAnUploadable.CHUNKSIZE
     upload.EncryptAnUploadable.CHUNKSIZE = u.get("encchunk") or old_chunk
     c0 = len(g.calllog)
@@ -561,7 +563,25 @@ def mode_converge(a, inp):
     try:
         g = Grid(os.path.join(work, "grid"), num_servers=4, k=1, n=1, happy=1, max_segment_size=128 * 1024, seed=a.seed)
         first = {}   # the base upload of a family of pairs is executed once (except where re-execution is the point)
-        for pair in inp["pairs"]:
+        # a mutable file and a directory that ANOTHER client published with other encoding parameters (3-of-5): every fifth
+        # second upload of a pair is preceded by this client reading one of them through a fresh node
+        from allmydata.mutable.publish import MutableData
+        nhist = [0]
+
+        def read_foreign():
+            nhist[0] += 1
+            saved = dict(g.params)
+            g.params["k"], g.params["n"] = 3, 5
+            foreign_nm = g.make_nodemaker()
+            if nhist[0] % 2:
+                cap = g.run(foreign_nm.create_mutable_file(MutableData(b"published by someone else, 3-of-5"))).get_readonly_uri()
+            else:
+                cap = g.run(foreign_nm.create_new_mutable_directory()).get_readonly_uri()
+            g.params.clear()
+            g.params.update(saved)
+            node = g.make_nodemaker().create_from_cap(cap)
+            g.run(node.list() if hasattr(node, "list") else node.download_best_version())
+        for pi, pair in enumerate(inp["pairs"]):
             k1 = json.dumps(pair["u1"], sort_keys=True)
             rerun = (pair["u1"] == pair["u2"]) or pair["u1"]["secret"] == "none"
             if rerun or k1 not in first:
@@ -569,8 +589,9 @@ def mode_converge(a, inp):
                 first.setdefault(k1, r1)
             else:
                 r1 = first[k1]
-            r2 = run_one_upload(g, pair["u2"], work)
-            out.append({"pair": pair, "r1": r1, "r2": r2})
+            hist = pi % 5 == 3
+            r2 = run_one_upload(g, pair["u2"], work, before_upload=read_foreign if hist else None)
+            out.append({"pair": pair, "r1": r1, "r2": r2, "history": "read a 3-of-5 mutable object first" if hist else ""})
         g.close()
     finally:
         shutil.rmtree(work, ignore_errors=True)
